@@ -15,12 +15,20 @@
 //   keydec <ed|sr|secp> <nonce12> <raw> <pw>       Encrypt(raw) then DecryptPrivateKey
 //   file <ed|sr|secp> <seed32> <pw>                EncryptAndWriteToFile / ReadFromFileAndDecrypt
 //                                                  (nonce from the real rand.Reader)
+//   mut <nonce12> <msg> <pw> <op> <a> <b>    Encrypt, modify the ciphertext, Decrypt.  <op>:
+//        set (byte a := b)  swap (bytes a and b)  del (remove byte a)  ins (insert b before a)
+//        front (drop the first a bytes)  dup (append a copy of the last a bytes)  zerotag
+//   filemut <ed|sr|secp> <seed32> <pw> <what> <a> <b>   EncryptAndWriteToFile, then rewrite the
+//        key file and ReadFromFileAndDecrypt.  <what>: pw (read with password <a>, hex)
+//        flip (bit b of ciphertext byte a)  trunc (keep a ciphertext bytes)
+//        type (Type field := scheme number a: 0 ed, 1 sr, 2 secp)
 // observables:
-//   enc, flip, trunc, ext, wrongpw, keydec -> <ciphertext> <res>
+//   enc, flip, trunc, ext, wrongpw, keydec, mut -> <ciphertext> <res>
 //   dec                                    -> <res>
 //   key                                    -> <encoded private key> <ciphertext> <res>
-//   file                                   -> <encoded private key> <ciphertext in the file> <res>
-//   <res> = ok:<hex of plaintext> | ok:<type byte 01 ed/02 sr/03 secp><Encode() of the decoded key> | err | panic
+//   file, filemut                          -> <encoded private key> <ciphertext in the file> <res>
+//   <res> = ok:<hex of plaintext> | ok:<type byte 01 ed/02 sr/03 secp><Encode() of the decoded key>
+//         | err:auth (gcm.Open's "message authentication failed") | err:other | panic
 package keystore
 
 import (
@@ -57,7 +65,10 @@ func c37Res(f func() ([]byte, error)) (res string) {
 	}()
 	out, err := f()
 	if err != nil {
-		return "err"
+		if strings.Contains(err.Error(), "message authentication failed") {
+			return "err:auth"
+		}
+		return "err:other"
 	}
 	return "ok:" + vu.Hex(out)
 }
@@ -130,9 +141,42 @@ func c37Password(r *vu.RNG) []byte {
 		return r.Bytes([]int{127, 128, 129, 255, 256, 257}[r.Intn(6)])
 	case 4:
 		return r.Bytes(1)
+	case 5: // ends or starts with white space, a newline, a NUL
+		return [][]byte{[]byte("noot\n"), []byte("noot "), []byte(" noot"), []byte("noot\r\n"), []byte("noot\x00"),
+			[]byte("\n"), []byte(" "), []byte("Noot"), []byte("NOOT"), []byte("no\tot")}[r.Intn(10)]
 	default:
 		return r.Bytes(1 + r.Intn(40))
 	}
+}
+
+// c37NearMiss returns a password a careless implementation might treat as equal to pw.
+func c37NearMiss(r *vu.RNG, pw []byte) []byte {
+	pw2 := append([]byte{}, pw...)
+	switch r.Intn(9) {
+	case 0:
+		if len(pw2) > 0 {
+			pw2[r.Intn(len(pw2))] ^= 1 << uint(r.Intn(8))
+		}
+	case 1:
+		if len(pw2) > 0 {
+			pw2 = pw2[:len(pw2)-1]
+		}
+	case 2:
+		pw2 = append(pw2, 0)
+	case 3:
+		pw2 = append(pw2, '\n')
+	case 4:
+		pw2 = append(pw2, ' ')
+	case 5:
+		pw2 = bytes.TrimSpace(pw2)
+	case 6:
+		pw2 = bytes.ToUpper(pw2)
+	case 7:
+		pw2 = bytes.ToLower(pw2)
+	default:
+		pw2 = append([]byte{' '}, pw2...)
+	}
+	return pw2
 }
 
 func c37Msg(r *vu.RNG) []byte {
@@ -236,6 +280,29 @@ func c37Gen(r *vu.RNG, n int, emit func(string)) {
 	}
 	for _, s := range c37Schemes {
 		emit(fmt.Sprintf("file %s %s %s", s, h(bytes.Repeat([]byte{9}, 32)), h([]byte("noot"))))
+		emit(fmt.Sprintf("filemut %s %s %s pw %s 0", s, h(bytes.Repeat([]byte{9}, 32)), h([]byte("noot")), h([]byte("noot\n"))))
+		emit(fmt.Sprintf("filemut %s %s %s trunc 0 0", s, h(bytes.Repeat([]byte{9}, 32)), h([]byte("noot"))))
+		emit(fmt.Sprintf("filemut %s %s %s trunc b 0", s, h(bytes.Repeat([]byte{9}, 32)), h([]byte("noot"))))
+		emit(fmt.Sprintf("filemut %s %s %s flip c 0", s, h(bytes.Repeat([]byte{9}, 32)), h([]byte("noot"))))
+		for t := 0; t < 3; t++ {
+			emit(fmt.Sprintf("filemut %s %s %s type %x 0", s, h(bytes.Repeat([]byte{9}, 32)), h([]byte("noot")), t))
+		}
+	}
+	// the near-miss passwords of "noot"
+	for _, pw2 := range []string{"noot\n", "noot ", " noot", "Noot", "NOOT", "noo", "noot\x00", ""} {
+		emit(fmt.Sprintf("wrongpw %s %s %s %s", h([]byte("0123456789ab")), h([]byte("helloworld")), h([]byte("noot")), h([]byte(pw2))))
+		emit(fmt.Sprintf("wrongpw %s %s %s %s", h([]byte("0123456789ab")), h([]byte("helloworld")), h([]byte(pw2)), h([]byte("noot"))))
+	}
+	// structural modifications of a three-block ciphertext
+	{
+		nonce, msg, pw := []byte("0123456789ab"), bytes.Repeat([]byte{7}, 33), []byte("noot")
+		total := 12 + len(msg) + 16
+		for _, c := range [][3]interface{}{{"zerotag", 0, 0}, {"swap", 12, 13}, {"swap", 0, 11}, {"swap", total - 1, total - 2},
+			{"swap", 12, 28}, {"del", 0, 0}, {"del", 12, 0}, {"del", total - 17, 0}, {"del", total - 16, 0}, {"del", total - 1, 0},
+			{"ins", 0, 0}, {"ins", 12, 0}, {"ins", total - 16, 7}, {"ins", total, 0}, {"front", 1, 0}, {"front", 12, 0},
+			{"front", 16, 0}, {"front", 28, 0}, {"dup", 16, 0}, {"dup", 1, 0}, {"dup", total, 0}, {"set", 12, 7}, {"set", 12, 0}} {
+			emit(fmt.Sprintf("mut %s %s %s %s %x %x", h(nonce), h(msg), h(pw), c[0], c[1], c[2]))
+		}
 	}
 
 	for i := 0; i < n; i++ {
@@ -252,7 +319,20 @@ func c37Gen(r *vu.RNG, n int, emit func(string)) {
 				l = r.Intn(120)
 			}
 			emit(fmt.Sprintf("dec %s %s", h(r.Bytes(l)), h(pw)))
-		case 5, 6, 7, 8:
+		case 8: // structural modifications
+			op := []string{"set", "swap", "del", "ins", "front", "dup", "zerotag"}[r.Intn(7)]
+			a, b := r.Intn(total+1), r.Intn(total+1)
+			if op == "set" || op == "ins" {
+				b = r.Intn(256)
+			}
+			if op == "del" || op == "set" || op == "swap" {
+				a = r.Intn(total)
+				if op == "swap" {
+					b = r.Intn(total)
+				}
+			}
+			emit(fmt.Sprintf("mut %s %s %s %s %x %x", h(nonce), h(msg), h(pw), op, a, b))
+		case 5, 6, 7:
 			pos := r.Intn(total)
 			switch r.Intn(4) {
 			case 0: // in the nonce
@@ -278,16 +358,8 @@ func c37Gen(r *vu.RNG, n int, emit func(string)) {
 			emit(fmt.Sprintf("ext %s %s %s %s", h(nonce), h(msg), h(pw), h(extra)))
 		case 13, 14:
 			pw2 := c37Password(r)
-			if r.Chance(1, 2) && len(pw) > 0 { // near miss
-				pw2 = append([]byte{}, pw...)
-				switch r.Intn(3) {
-				case 0:
-					pw2[r.Intn(len(pw2))] ^= 1 << uint(r.Intn(8))
-				case 1:
-					pw2 = pw2[:len(pw2)-1]
-				default:
-					pw2 = append(pw2, 0)
-				}
+			if r.Chance(1, 2) { // near miss
+				pw2 = c37NearMiss(r, pw)
 			}
 			emit(fmt.Sprintf("wrongpw %s %s %s %s", h(nonce), h(msg), h(pw), h(pw2)))
 		case 15, 16, 17:
@@ -302,14 +374,69 @@ func c37Gen(r *vu.RNG, n int, emit func(string)) {
 			}
 			emit(fmt.Sprintf("keydec %s %s %s %s", s, h(nonce), h(raw), h(pw)))
 		default:
-			if i%16 == 0 {
+			if i%4 == 0 {
 				s := c37Schemes[r.Intn(3)]
 				emit(fmt.Sprintf("file %s %s %s", s, h(r.Bytes(32)), h(pw)))
+			} else if i%4 == 2 {
+				s := c37Schemes[r.Intn(3)]
+				klen := 32
+				if s == "ed" {
+					klen = 64
+				}
+				switch r.Intn(4) {
+				case 0:
+					emit(fmt.Sprintf("filemut %s %s %s pw %s 0", s, h(r.Bytes(32)), h(pw), h(c37NearMiss(r, pw))))
+				case 1:
+					emit(fmt.Sprintf("filemut %s %s %s flip %x %x", s, h(r.Bytes(32)), h(pw), r.Intn(28+klen), r.Intn(8)))
+				case 2:
+					emit(fmt.Sprintf("filemut %s %s %s trunc %x 0", s, h(r.Bytes(32)), h(pw), r.Intn(28+klen)))
+				default:
+					emit(fmt.Sprintf("filemut %s %s %s type %x 0", s, h(r.Bytes(32)), h(pw), r.Intn(3)))
+				}
 			} else {
 				emit(fmt.Sprintf("enc %s %s %s", h(nonce), h(msg), h(pw)))
 			}
 		}
 	}
+}
+
+// c37Mutate applies a structural modification to a copy of the ciphertext (out-of-range
+// positions leave it unchanged; the driver mirrors this function).
+func c37Mutate(d []byte, op string, a, b int) []byte {
+	n := len(d)
+	switch op {
+	case "set":
+		if a < n {
+			d[a] = byte(b)
+		}
+	case "swap":
+		if a < n && b < n {
+			d[a], d[b] = d[b], d[a]
+		}
+	case "del":
+		if a < n {
+			d = append(d[:a:a], d[a+1:]...)
+		}
+	case "ins":
+		if a <= n {
+			d = append(d[:a:a], append([]byte{byte(b)}, d[a:]...)...)
+		}
+	case "front":
+		if a <= n {
+			d = d[a:]
+		}
+	case "dup":
+		if a <= n {
+			d = append(d, d[n-a:]...)
+		}
+	case "zerotag":
+		if n >= 16 {
+			for i := n - 16; i < n; i++ {
+				d[i] = 0
+			}
+		}
+	}
+	return d
 }
 
 func c37Run(in string) string {
@@ -318,7 +445,7 @@ func c37Run(in string) string {
 	switch f[0] {
 	case "dec":
 		return c37Dec(u(f[1]), u(f[2]))
-	case "enc", "flip", "trunc", "ext", "wrongpw":
+	case "enc", "flip", "trunc", "ext", "wrongpw", "mut":
 		nonce, msg, pw := u(f[1]), u(f[2]), u(f[3])
 		ct, err := c37Encrypt(msg, pw, nonce)
 		if err != nil {
@@ -341,6 +468,8 @@ func c37Run(in string) string {
 			data = append(data, u(f[4])...)
 		case "wrongpw":
 			pw2 = u(f[4])
+		case "mut":
+			data = c37Mutate(data, f[4], int(vu.UnX(f[5])), int(vu.UnX(f[6])))
 		}
 		return vu.Hex(ct) + " " + c37Dec(data, pw2)
 	case "key":
@@ -364,7 +493,7 @@ func c37Run(in string) string {
 			return "err:encrypt"
 		}
 		return vu.Hex(ct) + " " + c37DecKey(ct, pw, f[1])
-	case "file":
+	case "file", "filemut":
 		seed, pw := u(f[2]), u(f[3])
 		var pk crypto.PrivateKey
 		switch f[1] {
@@ -406,14 +535,40 @@ func c37Run(in string) string {
 		if err := json.Unmarshal(raw, ks); err != nil {
 			return "err:json"
 		}
+		stored := append([]byte{}, ks.Ciphertext...)
+		pw2 := pw
+		if f[0] == "filemut" {
+			a, b := f[5], f[6]
+			switch f[4] {
+			case "pw":
+				pw2 = u(a)
+			case "flip":
+				if p := int(vu.UnX(a)); p < len(ks.Ciphertext) {
+					ks.Ciphertext[p] ^= 1 << uint(vu.UnX(b))
+				}
+			case "trunc":
+				if l := int(vu.UnX(a)); l < len(ks.Ciphertext) {
+					ks.Ciphertext = ks.Ciphertext[:l]
+				}
+			case "type":
+				ks.Type = c37KeyType(c37Schemes[int(vu.UnX(a))%3])
+			}
+			out, err := json.Marshal(ks)
+			if err != nil {
+				return "err:json"
+			}
+			if err := os.WriteFile(path, out, 0600); err != nil {
+				return "err:write"
+			}
+		}
 		res := c37Res(func() ([]byte, error) {
-			k, err := ReadFromFileAndDecrypt(path, pw)
+			k, err := ReadFromFileAndDecrypt(path, pw2)
 			if err != nil {
 				return nil, err
 			}
 			return c37Typed(k), nil
 		})
-		return vu.Hex(pk.Encode()) + " " + vu.Hex(ks.Ciphertext) + " " + res
+		return vu.Hex(pk.Encode()) + " " + vu.Hex(stored) + " " + res
 	}
 	return "err:badinput"
 }
